@@ -4,7 +4,7 @@ CONSTANTS
   Hi <- LoDef
   Stride = 1
   MaxRules = 2
-  Wide = FALSE
-  Late = 1
+  Wide = TRUE
+  Late = 0
 INVARIANTS ExprHintSound
 CHECK_DEADLOCK FALSE
